@@ -705,7 +705,11 @@ func (pc *propCheck) report(t0 time.Time) int {
 		if f := os.Getenv("GVC_OBLS"); f != "" {
 			// debugging aid: the names of all claimed obligations, one per line
 			if fh, err := os.OpenFile(f, os.O_APPEND|os.O_CREATE|os.O_WRONLY, 0o644); err == nil {
-				fmt.Fprintf(fh, "%s\t%s\n", pc.ID, o.Name)
+				if o.Result != nil {
+					fmt.Fprintf(fh, "%s\t%s\t%.2f\t%s\n", pc.ID, o.Name, o.Result.Time, o.Result.Solver)
+				} else {
+					fmt.Fprintf(fh, "%s\t%s\n", pc.ID, o.Name)
+				}
 				fh.Close()
 			}
 		}
